@@ -1287,6 +1287,8 @@ def run(chk: Check) -> None:
                  [{"what": "recipe-not-length-generic", "entry": k, "extents": v["not_length_generic"]}
                   for k, v in chk.coverage.get("dataflow_entries", {}).items() if v.get("not_length_generic")]
     if recipe_tie:
+        for b in recipe_tie[:4]:
+            chk.log("recipe correspondence broken: " + json.dumps(b, default=str)[:700])
         chk.violation({"correspondence": "regenerated recipe (Lean evaluation) differs from ONNX Runtime on the real "
                                          "exported model — the translator or the operator vocabulary no longer covers "
                                          "what /repo emits", "cases": recipe_tie[:20]},
